@@ -325,6 +325,7 @@ class QueueWorld(object):
         'maildrop': ['ok', 'temp', 'perm'],
         'smtp': [{}, {'rcpt0': '251'}, {'rcpt0': '5'}, {'rcpt0': '4'}, {'mail': '4'}, {'data': '5'}, {'eod': '4'}, {'eod': '5'}, {'banner': 'disconnect'},
                  {'rcpt0': '4', 'rcpt1': '5'}, {'eod': 'disconnect'}, {'connect': 'refused'}, {'mail': 'stall'}],
+        'http': ['200+250', '200', '500+451', '503', '400+550', '404', 'drop', 'refused', '200+garbage'],
         'lmtp': [{}, {'rcpt0': '5'}, {'eod0': '5'}, {'eod0': '4'}, {'eod1': '4'}, {'mail': '4'}, {'eod0': '5', 'eod1': '4'}, {'banner': 'disconnect'},
                  {'rcpt0': '251', 'eod1': '4'}, {'rcpt0': '251', 'eod1': '5'}, {'rcpt0': '251'}, {'connect': 'refused'}, {'eod0': 'stall'}],
     }
@@ -416,6 +417,45 @@ class QueueWorld(object):
                 if b == 'ok':
                     accepted.update([rcpts[i]] if relay.per_recipient else rcpts)
             return accepted, outcome
+        if kind == 'http':
+            # HttpRelay in front of a scripted origin: the origin took the message iff it answered 2xx
+            import types
+            import slimta.http as shttp
+            from slimta.relay.http import HttpRelay
+            from fakes.vsock import Net
+            from fakes.fakehttp import HttpPeer, response
+            net = Net(self.world)
+            took = []
+
+            def create_connection(addr, timeout=None, source_address=None):
+                if behaviour == 'refused':
+                    raise _socket.error(111, 'Connection refused')
+                c, s_ = net.pair(peername=addr)
+
+                def responder(req, k):
+                    if behaviour == 'drop':
+                        return 'drop'
+                    status, _, hdr = behaviour.partition('+')
+                    hs = []
+                    if hdr == 'garbage':
+                        hs = [('X-Smtp-Reply', 'not a reply')]
+                    elif hdr:
+                        hs = [('X-Smtp-Reply', '%s; message="%s.0.0 scripted origin answer"' % (hdr, hdr[0]))]
+                    if status.startswith('2'):
+                        took.append(k)
+                    return response(int(status), {'200': 'OK', '500': 'Internal Server Error', '503': 'Service Unavailable',
+                                                  '400': 'Bad Request', '404': 'Not Found'}[status], hs, b'x')
+                gevent.spawn(HttpPeer(s_, responder).run)
+                return c
+            self.world.patch(shttp, 'socket', types.SimpleNamespace(create_connection=create_connection))
+            relay = HttpRelay('http://mx.test:8025/deliver', ehlo_as='relay.test', timeout=9.0)
+            try:
+                outcome = ('returned', relay.attempt(envelope, attempts))
+            except gevent.GreenletExit:
+                raise
+            except BaseException as e:
+                outcome = ('raised', e)
+            return (set(rcpts) if took else set()), outcome
         # SMTP / LMTP over in-memory sockets
         from slimta.relay.smtp.static import StaticSmtpRelay, StaticLmtpRelay
         from fakes.vsock import Net, VContext
